@@ -15,7 +15,6 @@ import json, re, sys
 
 PERMANENT = [
     (r"^dir=\^ ", "~^ stops the enclosing ~{ (or the rest of the control string) even when arguments remain, and the rest of the body is still printed; pinned by test/cl/format_test.go (\"names:~{ ~A~^~}\" => \"names: ann\")"),
-    (r"^dir=[&t] .* ctx=(first-in-|in-)", "~& and ~T inside ~( ~[ ~{ ~? look only at the output of the enclosing block, not at the whole output so far (each block is processed into its own buffer)"),
     (r"^dir=\( mods=(:|@) .*arg=(text-digit-in-word|text-apostrophe|text-hyphen|text-leading-space|percent-inside)", "~:( and ~@( find words with x/text's English title caser / the first blank, not as maximal alphanumeric runs (3rd -> 3Rd, it's, foo-bar, leading blanks, newline as separator)"),
 ]
 
@@ -25,6 +24,7 @@ PENDING = [
     (r"^rel=print-function ", "0008+0009", "princ-to-string / princ print a string with quotes (princ: only the empty string)"),
     (r"arg=non-integer", "0010", "~D ~B ~O ~X print a non-integer argument with escapes although the documentation says like ~A"),
     (r"^dir=\? .*arg=literal-control", "0011", "~? rejects nil as the (empty) argument list"),
+    (r"^dir=[&t] .* ctx=(first-in-|in-)", "0020", "~& and ~T inside ~( ~[ ~{ ~? look only at the output of the enclosing block, not at the whole output so far"),
     (r"^dir=t .*params=colinc0", "0013", "~T with colinc 0 divides by zero"),
     (r"^dir=t mods=@? params=(none|colinc-only)", "0012", "~T / ~@T use 0 instead of the documented default 1 for colnum / colrel"),
     (r"^dir=r mods=:?@ params=none arg=zero", "0014", "~@R prints the empty string for 0 instead of a range error"),
@@ -116,6 +116,7 @@ FIXED = [
     "fixed: property=C15 0017 ~% ~& ~~ ~| ~* ~[ rejected nil for a v parameter",
     "fixed: property=C15 0018 ~[ raised a type error for a bignum selector",
     "fixed: property=C15 0019 ~{ … ~} swallowed a literal } that follows the closing ~}",
+    "fixed: property=C15 0020 ~& and ~T inside ~( ~[ ~{ ~? ignored the output before the block ((format nil \"abc~%~[~&x~]\" 0) => \"abc\\n\\nx\")",
 ]
 
 if __name__ == "__main__":
